@@ -126,6 +126,7 @@ func (RequestsScenario) GenCase(r *rand.Rand, prop string) interface{} {
 		// quiescence and must answer every request again
 		c.Epochs = 2
 		c.MidStop = []int{10 + r.IntN(120), -1}
+		c.OverlapServe = chance(r, 50)
 	}
 	c.Workers = pick(r, 1, 2, 3, 4, 8, 32)
 	c.InCh = pick(r, 2, 4, 8, 1024, 1024)
